@@ -10,7 +10,7 @@ import (
 
 func init() {
 	register("C08", propMeta{
-		Explanation: "Decides, for each of the 3 client types x 3 proof kinds (9 functions), on every path: success is reached only past 'client latest height >= proof height', the consensus state fetched from the given store at the proof height, the confirmation delay (Tendermint: processedTime(proofHeight)+delay <= block time in ns; BSC/ETH: delay blocks <= latest height - proof height) and a membership call whose root comes from that consensus state, whose proof object is decoded from the submitted bytes, whose key is the protocol key of the right class with holes (source,dest[,sequence]) and whose value is the claimed value; writer/reader agreement: the key shape the packet keeper writes (commitment, acknowledgement, clean point) equals the key shape every client type proves, and the clean-point value encoding agrees with what each verifier compares; inside the Merkle-Patricia verifier of BSC and of ETH: proof address == client contract address, account proof against the consensus root at keccak(address), the RLP of the account built from the proof (with the same storage hash later used) equals the proven account, exactly one storage proof, the raw proven slot equals the expected slot and the trie lookup uses keccak(raw slot) under that storage hash, and the result check compares with the claimed value; BSC and ETH verifiers agree condition by condition; every value that reaches the final 32-byte storage-word comparison has static length 32. NOT decided: correctness of ICS-23 / trie libraries, completeness for arbitrary stored sets, boundary arithmetic of delays.",
+		Explanation: "Decides, for each of the 3 client types x 3 proof kinds (9 functions), on every path: success is reached only past 'client latest height >= proof height', the consensus state fetched from the given store at the proof height, the confirmation delay (Tendermint: processedTime(proofHeight)+delay <= block time in ns; BSC/ETH: delay blocks <= latest height - proof height) and a membership call whose root comes from that consensus state, whose proof object is decoded from the submitted bytes, whose key is the protocol key of the right class with holes (source,dest[,sequence]) and whose value is the claimed value; writer/reader agreement: the key shape the packet keeper writes (commitment, acknowledgement, clean point) equals the key shape every client type proves, and the clean-point value encoding agrees with what each verifier compares; inside the Merkle-Patricia verifier of BSC and of ETH: proof address == client contract address, account proof against the consensus root at keccak(address), the RLP of the account built from the proof (with the same storage hash later used) equals the proven account, exactly one storage proof, the raw proven slot equals the expected slot and the trie lookup uses keccak(raw slot) under that storage hash, and the result check compares with the claimed value; BSC and ETH verifiers agree condition by condition; every value that reaches the final 32-byte storage-word comparison has static length 32. Also: the Tendermint proven path is ApplyPrefix(clientState.MerklePrefix, key) in all three Verify* functions, MerklePath.GetKey is the identity over the store-key alphabet, and every path of the Tendermint update() writes the processed time (the value the delay check reads) for the header's own height. NOT decided: correctness of ICS-23 / trie libraries, completeness for arbitrary stored sets, boundary arithmetic of delays.",
 		Assumptions: []string{"ICS-23 and go-ethereum trie verification are correct"},
 		Trusted:     commonTrusted,
 	}, ruleC08)
